@@ -26,6 +26,10 @@ CLAIMED = {
          "Exploration: the same text is analysed in C, A and B; C boundaries must be contained in A and B boundaries, unit-less C tokens must reappear unchanged, tokens whose word declares >= 2 units must be replaced by exactly the model-resolved units in order partitioning the parent, and split_into must agree with direct tokenisation (false and an untouched output list for unit-less words); with path-rewrite plugins on only boundary inclusion is checked. No absence claim.",
          "Compounds are generated well formed (unit keys concatenate to the key); ill-formed declarations are known finding F15 (C06). Words declaring exactly one unit are outside the statement and not generated.",
          "DESIGN.md section 4, C09"),
+ "C10": ("property-based testing (proptest): model-free stateful differential - generated operation histories on one tokenizer + reused result list versus a freshly created tokenizer after every analysing step",
+         "Exploration: histories of up to 12 (thorough 40) operations (mode and subset changes, analyses with and without collection, oversized / empty / over-expanding / long inputs, on-demand splits into a spare list, lookups on the reused list) are interpreted on an aged tokenizer and result list; after every analysis and for the final probe the outcome (error kind or morphemes with ranges, ids, costs, surfaces and every requested field) must equal what a fresh tokenizer with the same mode and field request gives. No absence claim.",
+         "Field requests contain surface, POS and normalised form whenever path-rewrite plugins are configured (the restriction written into the property). Fields outside the request are not compared.",
+         "DESIGN.md section 4, C10"),
  "C11": ("property-based testing (proptest) with a complete inner enumeration: all 1024 field subsets for every generated word; tokenizer-level differential against the full-field analysis in three call orders",
          "Exploration: for every word of generated system/user dictionaries (current and legacy formats, boundary-length strings, references, elided forms) and ALL 2^10 subsets each requested field read through its accessor equals the full-load value; analyses under set_subset(S) keep the partition for every S and, when S covers what path-rewrite plugins read (or none is configured), the same tokens and requested field values as the full-field analysis, for the three orders of set_mode/set_subset. No absence claim.",
          "Subsets are closed by InfoSubset::normalize() as the tokenizer does. Legacy formats are produced by rewriting the version word of freshly compiled dictionaries.",
